@@ -1747,6 +1747,11 @@ pub fn match_pattern<'a>(
                 let items: Vec<V> = match &v {
                     V::List(l) => l.borrow().clone(),
                     V::Tuple(t) => (**t).clone(),
+                    V::Range(Some(a), Some(b), incl) => {
+                        let end = if *incl { *b as i128 + 1 } else { *b as i128 };
+                        let n = (end.max(*a as i128) - *a as i128).min(64) as i64;
+                        (0..n).map(|i| V::Int(a + i)).collect()
+                    }
                     V::Str(st) => {
                         if !st.is_ascii() {
                             return Err(Ctl::Unmodelled("unpacking a non-ASCII string by index".into()));
@@ -1816,7 +1821,7 @@ pub fn match_pattern<'a>(
                             }
                         }
                         if let Pat::Ellipsis(Some(n)) = &ps[pos] {
-                            if matches!(v, V::Map(_) | V::Str(_)) {
+                            if matches!(v, V::Map(_) | V::Str(_) | V::Range(..)) {
                                 // the guide only documents "captured in a tuple" for sequences
                                 return Err(Ctl::Unmodelled("named ellipsis over a map/string".into()));
                             }
